@@ -465,5 +465,12 @@ Clean == MFailing = {}
 
 (* edge export (BUILDING.md option b): ACTION_CONSTRAINT Edge, VIEW view, -workers 1 *)
 \* (ToJson of whole states is ~20x slower than ToString; the states are only needed as identities)
-Edge == Clean /\ PrintT(<<"EDGE", ToJson(act'), ToString(view), ToString(view')>>)
+\*  IdView is `view` written with tuples only: TLC prints tuples canonically, records/sets not before normalisation)
+VT(v) == <<v.cpu, v.gpu, v.pods>>
+ET(e) == <<e.st, e.grp, e.nom>>
+IdView == << [p \in DOMAIN pods |-> ET(pods[p])], [p \in DOMAIN ghost |-> ET(ghost[p])], VT(A.idle), VT(A.used), VT(A.rel),
+             [i \in 1..Len(GroupSeq) |-> <<A.um[GroupSeq[i]], A.am[GroupSeq[i]], A.rm[GroupSeq[i]],
+                                           GroupSeq[i] \in A.mk, GroupSeq[i] \in A.ak>>],
+             log, phase, pc, seen >>
+Edge == Clean /\ PrintT(<<"EDGE", ToJson(act'), ToString(IdView), ToString(IdView')>>)
 =============================================================================
